@@ -22,6 +22,21 @@ class UserError(TartifletteError):
     """An application error derived from the library's error class."""
 
 
+class AppBaseException(BaseException):
+    """An application failure that does not derive from Exception."""
+
+
+class KeyedError(UserError):
+    """A library-error subclass with its own constructor signature (cannot be rebuilt from `args`)."""
+
+    def __init__(self, shown, key, *, extensions, developer=None):
+        if developer is not None:
+            super().__init__(developer, user_message=shown, extensions=extensions)
+        else:
+            super().__init__(shown, extensions=extensions)
+        self.key = key
+
+
 class Runtime:
     """Per-request state shared between the client and the actors of that request."""
 
@@ -151,6 +166,8 @@ def make_resolver(coord, bundle=None):
         if outcome[0] == "raise":
             _, kind, tok, tf = outcome
             if kind == "raise_tf":
+                if zlib.crc32(repr(path).encode()) % 3 == 0:
+                    raise KeyedError(tf[0], "k", extensions=dict(tf[1]), developer=tf[2] if len(tf) > 2 else None)
                 if len(tf) > 2 and tf[2] is not None:
                     raise UserError(tf[2], user_message=tf[0], extensions=dict(tf[1]))
                 raise UserError(tf[0], extensions=dict(tf[1]))
@@ -162,6 +179,15 @@ def make_resolver(coord, bundle=None):
                 if which == 1:
                     raise EmptyMessageError()
                 raise PathCarryingError("odd " + tok)
+            if kind == "raise_base":
+                # a failure that is not an `Exception`: the resolver awaits something that somebody else
+                # cancelled (CancelledError raised INSIDE the resolver, the request itself is not cancelled),
+                # or the application raises its own BaseException subclass
+                if zlib.crc32(repr(path).encode()) % 2 == 0:
+                    fut = loop.create_future()
+                    fut.cancel()
+                    await fut
+                raise AppBaseException("base " + tok)
             if kind == "raise_shared":
                 pool = rt.shared if rt.shared is not None else rt.__dict__.setdefault("_own_shared", {})
                 if "exc" not in pool:
